@@ -24,6 +24,16 @@ CLAIMED['C09'] = (
     'argument acceptance is defined by type_transform(x, arg) under default options; text->number conversion only over '
     'the stated vocabulary; known finding K-C09-xor-exact-type is reported, not hidden',
     'symbolic execution of the real code (CrossHair primitives + z3), path-tree exhaustion, concrete replay')
+CLAIMED['C16'] = (
+    'Bounded symbolic model checking of TypeRegistry.register/resolve (and the public register_transformer / '
+    'register_encoder entry points): every history of up to 4 operations (5 in the thorough tier) over a small class '
+    'hierarchy, with the registered class, allow_subclasses, the priority (solver integer) and the resolved class '
+    'chosen by the solver, is executed on the real registry and the identity of the resolved function is compared '
+    'with a cache-free reference after every resolve; one obligation per operation-kind sequence, every tree exhausted. '
+    'Histories are the quantifier of this property, so a bounded exhaustive exploration of histories is the right level.',
+    'reference model of the documented rule (highest priority, latest wins, matching by own criteria); histories '
+    'longer than the bound are outside the claim (state = ordered registration list + cache, argued not proved)',
+    'symbolic execution of the real code (CrossHair primitives + z3) over operation histories, path-tree exhaustion, concrete replay')
 NOT_APPLICABLE = {}
 
 def main():
